@@ -83,6 +83,27 @@ void do_join(char const *kind, char const *sn, std::vector<Seq> const &parts)
   }
 }
 
+// join(a, a) and join(a, b, a): the first container is also one of the inserted ones (lvalues)
+template <typename Cont, typename Seq>
+void do_join_same(char const *kind, char const *sn, Seq const &pa, Seq const &pb)
+{
+  {
+    Cont a(mk<Cont>(pa));
+    Rec r("join");
+    r.ks("kind", kind).ks("src", sn).ks("cat", "same").k("cs", "[" + seqj(pa) + "," + seqj(pa) + "]").begin();
+    Cont const res(fcppt::container::join(a, a));
+    r.k("r", seqj(res)).end();
+  }
+  {
+    Cont a(mk<Cont>(pa));
+    Cont const b(mk<Cont>(pb));
+    Rec r("join");
+    r.ks("kind", kind).ks("src", sn).ks("cat", "same").k("cs", "[" + seqj(pa) + "," + seqj(pb) + "," + seqj(pa) + "]").begin();
+    Cont const res(fcppt::container::join(a, b, a));
+    r.k("r", seqj(res)).end();
+  }
+}
+
 void join_algos(bool thorough)
 {
   std::vector<ivec> pool;
@@ -94,6 +115,12 @@ void join_algos(bool thorough)
     std::vector<ivec> parts;
     for (int i : idx) parts.push_back(pool[static_cast<std::size_t>(i)]);
     do_join<std::vector<int>>("seq", "vector", parts);
+    if (idx.size() == 2)
+    {
+      do_join_same<std::vector<int>>("seq", "vector", parts[0], parts[1]);
+      do_join_same<std::deque<int>>("seq", "deque", parts[0], parts[1]);
+      do_join_same<std::list<int>>("seq", "list", parts[0], parts[1]);
+    }
     if (idx.size() <= 2 || thorough)
     {
       do_join<std::list<int>>("seq", "list", parts);
@@ -138,10 +165,14 @@ void do_at_optional(char const *sn, ivec const &v)
   for (std::size_t const i : idxs)
   {
     {
-      Rec r("at_optional");
-      r.ks("src", sn).ks("cat", "mutable").k("xs", xs).ki("i", static_cast<long long>(i)).begin();
-      auto const res(fcppt::container::at_optional(c, i));
-      r.k("r", res.has_value() ? "[" + ej(res.get_unsafe().get()) + "]" : std::string("[]")).end();
+      // the result is a reference into the container: add `bump` through it and log the contents
+      Cont c2(v.begin(), v.end());
+      Rec r("at_optional_mut");
+      r.ks("src", sn).k("xs", xs).ki("i", static_cast<long long>(i)).ki("bump", 7).begin();
+      auto const res(fcppt::container::at_optional(c2, i));
+      r.k("r", res.has_value() ? "[" + ej(res.get_unsafe().get()) + "]" : std::string("[]"));
+      if (res.has_value()) res.get_unsafe().get() += 7;
+      r.k("st", seqj(c2)).end();
     }
     {
       Cont const &cc(c);
@@ -171,6 +202,22 @@ std::string map_state(Map const &m)
   return s + "]";
 }
 
+// create function of get_or_insert: a table, logs the key it is called with and whether that key
+// is already in the map at that moment
+template <typename Map>
+struct CreateF
+{
+  UF f;
+  Map const *m;
+  std::string *present;
+  int operator()(int const key) const
+  {
+    if (!present->empty()) *present += ',';
+    *present += m->find(key) != m->end() ? "true" : "false";
+    return f(key);
+  }
+};
+
 template <typename Map>
 void map_algos(char const *sn, pvec const &ps)
 {
@@ -180,10 +227,12 @@ void map_algos(char const *sn, pvec const &ps)
   {
     {
       Map m(base);
-      Rec r("find_opt_mapped");
-      r.ks("src", sn).ks("cat", "mutable").k("m", mj).ki("k", k).begin();
+      Rec r("find_opt_mapped_mut");
+      r.ks("src", sn).k("m", mj).ki("k", k).ki("bump", 5).begin();
       auto const res(fcppt::container::find_opt_mapped(m, k));
-      r.k("r", res.has_value() ? "[" + ej(res.get_unsafe().get()) + "]" : std::string("[]")).end();
+      r.k("r", res.has_value() ? "[" + ej(res.get_unsafe().get()) + "]" : std::string("[]"));
+      if (res.has_value()) res.get_unsafe().get() += 5;
+      r.k("st", map_state(m)).end();
     }
     {
       Rec r("find_opt_mapped");
@@ -197,24 +246,26 @@ void map_algos(char const *sn, pvec const &ps)
     {
       int const bump = 3 + idx % 2;
       {
-        UF const f(idx);
         Map m(base);
+        std::string present;
+        CreateF<Map> const f{UF(idx), &m, &present};
         Rec r("get_or_insert_with_result");
-        r.ks("src", sn).k("m", mj).ki("k", k).k("ft", f.json()).ki("bump", bump).begin();
+        r.ks("src", sn).k("m", mj).ki("k", k).k("ft", f.f.json()).ki("bump", bump).begin();
         auto const res(fcppt::container::get_or_insert_with_result(m, k, f));
         r.ki("elem", res.element()).kb("inserted", res.inserted());
         res.element() += bump; // the result must refer to the element inside the container
-        r.k("st", map_state(m)).end_log();
+        r.k("present", "[" + present + "]").k("st", map_state(m)).end_log();
       }
       {
-        UF const f(idx);
         Map m(base);
+        std::string present;
+        CreateF<Map> const f{UF(idx), &m, &present};
         Rec r("get_or_insert");
-        r.ks("src", sn).k("m", mj).ki("k", k).k("ft", f.json()).ki("bump", bump).begin();
+        r.ks("src", sn).k("m", mj).ki("k", k).k("ft", f.f.json()).ki("bump", bump).begin();
         int &res(fcppt::container::get_or_insert(m, k, f));
         r.ki("elem", res);
         res += bump;
-        r.k("st", map_state(m)).end_log();
+        r.k("present", "[" + present + "]").k("st", map_state(m)).end_log();
       }
     }
 }
@@ -242,16 +293,19 @@ void ordered_map_algos(pvec const &ps)
     r.k("r", seqj(res)).end();
   }
   {
-    Rec r("map_values_ref");
+    // references to the mapped objects: add 10 (i + 1) through the i-th one and log the map
+    std::map<int, int> m2(m);
+    Rec r("map_values_ref_mut");
     r.ks("tgt", "vector").k("m", mj).begin();
-    auto const res(fcppt::container::map_values_ref<std::vector<fcppt::reference<int>>>(m));
+    auto const res(fcppt::container::map_values_ref<std::vector<fcppt::reference<int>>>(m2));
     std::string s = "[";
     for (std::size_t i = 0; i < res.size(); ++i)
     {
       if (i) s += ',';
       s += ej(res[i].get());
     }
-    r.k("r", s + "]").end();
+    for (std::size_t i = 0; i < res.size(); ++i) res[i].get() += 10 * static_cast<int>(i + 1);
+    r.k("r", s + "]").k("st", seqj(m2)).end();
   }
   {
     std::map<int, int> const &cm(m);
